@@ -181,6 +181,7 @@ int tr_open_sim(void *sock)
 		return TR_ERROR;
 	}
 	p.open = true;
+	p.hdr_seen = false;
 	p.gen++;
 	p.inq.clear();
 	p.peer_closed = false;
@@ -309,6 +310,12 @@ int tr_send_sim(const void *sock, const void *pdu, const size_t len, const time_
 	if (const J *f = fault_for(p, "send", k)) {
 		std::string kind = f->gets("kind", "err");
 		fault_fired(W, p, "send_" + kind);
+		// tr_send_all gives up on this PDU: what it has written so far stays on the wire as a fragment (the only
+		// incomplete PDU C14 permits) and is not part of the next PDU
+		if (p.out_stream.size() > p.out_parsed) {
+			p.out_stream.resize(p.out_parsed);
+			W.ctx.count("probe_pdu_fragment_after_send_fault");
+		}
 		p.wait_returned_success = false; // the poll was attempted in time; the transport refused it
 		return kind == "intr" ? TR_INTR : kind == "wouldblock" ? TR_WOULDBLOCK : TR_ERROR;
 	}
@@ -912,7 +919,11 @@ void sync_exit_locked(World &W, int si, int rc)
 	view.at_query = x.at_query;
 	if (x.sync_calls > 1) // a re-entered synchronisation continues with what the first call learnt
 		view.at_query.version = b.version;
-	Walk w = walk_exchange(view, from == 0);
+	// "first PDU of the connection": no complete header has been received on it yet (an interrupted read may have
+	// consumed a few bytes without delivering a header)
+	Walk w = walk_exchange(view, !p.hdr_seen);
+	if (p.consumed >= from + 8)
+		p.hdr_seen = true;
 	int faults_now = x.faults_fired - p.sync_faults_before;
 	// C18: an allocation failed inside this call: the response may fail (then the failure clause applies) or still succeed
 	bool alloc_failed = simalloc_failures() != p.sync_allocfail_before;
@@ -1234,6 +1245,8 @@ extern "C" int __wrap_rtr_wait_for_sync(struct rtr_socket *s)
 	p.sync_enter_consumed = p.consumed;
 	int rc = __real_rtr_wait_for_sync(s);
 	p.in_wait = false;
+	if (p.consumed >= p.sync_enter_consumed + 8)
+		p.hdr_seen = true;
 	p.wait_return_ns = sim_now_ns();
 	p.wait_returned_success = rc == RTR_SUCCESS;
 	// did it consume a well-formed Serial Notify of the negotiated version?
